@@ -77,7 +77,7 @@ def split_units(desc, bound, kinds, extra=None, shim_factory=None):
     return us
 
 
-def lifecycle_descs(tier, seed, hib_values=(False, True), objs=("twofunnel", "plateau", "sphere_in", "const"), maximize=(False, True)):
+def lifecycle_descs(tier, seed, hib_values=(False, True), objs=("twofunnel", "plateau", "sphere_in", "const", "tiny_offset"), maximize=(False, True)):
     s = 1 + seed % 1000
     out = []
     # (a) complete enumeration over L and S choices: small worlds
@@ -99,7 +99,7 @@ def lifecycle_descs(tier, seed, hib_values=(False, True), objs=("twofunnel", "pl
                 lsc = [lscs[(k + j) % len(lscs)] for j in range(len(eng))]
                 gsc = [{"kind": "horizon"}, {"kind": "evals", "n": 60}, {"kind": "horizon"}][k % 3]
                 out.append(("bounded", dict(engines=list(eng), gens=1 + k % 2, Mh=4, hib=hib, seed=s, choices="GLS", lsc=lsc,
-                                            gsc=gsc, maximize=mx, obj=FLAT_FOR.get(tuple(eng), objs[k % len(objs)]),
+                                            gsc=gsc, maximize=mx, obj=FLAT_FOR.get(tuple(eng), objs[k % len(objs)]), print_at_boundaries=bool(k % 4 == 1),
                                             sprout={"kind": "scripted", "L": L, "default": 1 + (k % 2), "demelimit": dl})))
                 k += 1
     # middle-level demes that stop when all their children have stopped, several siblings per level
@@ -139,7 +139,7 @@ def mechanism_descs(tier, seed):
                 sp["tree_chain"] = [dict(f, limit=L) if f["kind"] == "levellimit" else f for f in sp["tree_chain"]]
             out.append(dict(engines=list(eng), gens=1 + k % 2, Mh=5, hib=bool(k % 2), seed=s + k % 2, choices="GL", maximize=bool((k // 2) % 2),
                             lsc=[None] + [lscs[(k + j) % len(lscs)] for j in range(1, len(eng))], sprout=sp,
-                            obj=("twofunnel", "sphere_in", "plateau")[k % 3], box=("B_asym", "B_sym")[k % 2]))
+                            obj=("twofunnel", "sphere_in", "plateau", "tiny_offset")[k % 4], box=("B_asym", "B_sym")[k % 2], print_at_boundaries=bool(k % 3 == 0)))
     return out
 
 
